@@ -22,7 +22,7 @@ from bitproto._ast import (
 )
 from bitproto.errors import InternalError
 from bitproto.renderer.formatter import CaseStyleMapping, Formatter
-from bitproto.utils import override
+from bitproto.utils import escape_string_literal, override
 
 
 class CFormatter(Formatter):
@@ -89,7 +89,7 @@ class CFormatter(Formatter):
 
     @override(Formatter)
     def format_str_value(self, value: str) -> str:
-        return '"{0}"'.format(value)
+        return '"{0}"'.format(escape_string_literal(value))
 
     @override(Formatter)
     def format_int_value(self, value: int) -> str:
